@@ -62,7 +62,7 @@ Proof. exact snapshot_coincide. Qed.
     Snapshot's own InspectRealm cannot read the database -- the inspector's
     error ([OSnapshotFail]); in both cases before any write. *)
 Theorem C14_refuse_untouched :
-  forall (d : db) (ss : list sess) (fs rs : list bool),
+  forall (d : db) (ss : list sess) (fs : faults) (rs : list bool),
   (exists o, In o d /\ bookkeeping o = false) ->
   run_sessions ss fs rs d = (match ss with [] => OOk | _ => decline_of d end, d, fs, rs, []) /\
   declined (decline_of d) = true.
@@ -74,7 +74,7 @@ Qed.
 
 Theorem C14_refuse_untouched_cmd :
   forall (norm : normalizer) (c : command) (excl : bool) (dir : mdir) (from to : source) (changes : bool)
-         (fs rs : list bool) (d : db),
+         (fs : faults) (rs : list bool) (d : db),
   prop_clean d = false ->
   sessions_of norm c excl dir from to <> [] ->
   run_cmd norm c excl dir from to changes fs rs d = (decline_of d, d, []) /\
@@ -88,7 +88,7 @@ Qed.
 (** the same for whatever Snapshot does not accept, including a database its
     inspection cannot read although the property would call it empty *)
 Theorem C14_declined_untouched :
-  forall (d : db) (ss : list sess) (fs rs : list bool),
+  forall (d : db) (ss : list sess) (fs : faults) (rs : list bool),
   snapshot d <> VClean ->
   run_sessions ss fs rs d = (match ss with [] => OOk | _ => decline_of d end, d, fs, rs, []).
 Proof. intros d ss fs rs H. exact (run_sessions_refused ss fs rs d H). Qed.
@@ -120,13 +120,15 @@ Proof. exact run_cmd_untouched. Qed.
     sessions (each with restores nested in its body wherever LoadChanges puts
     them), every accepted start (empty, or engine bookkeeping only), every
     body and every fault stream [fs] over the replay/normalisation statements
-    -- i.e. whichever statement fails, in whichever session -- the final state
+    and over the reads of the state (each of which fails in any case when the
+    database holds something the inspector cannot parse) -- i.e. whichever
+    statement or read fails, in whichever session -- the final state
     is strictly empty, the run ends with a complete restore and is never
     reported as refused.  [rs = []]: no statement of a RestoreFunc fails.
     The bodies range over reads ([OInspect]) too: the exit "all statements
     succeeded, the inspection afterwards failed" is one of the exits covered. *)
 Theorem C14_handed_back_empty :
-  forall (ss : list sess) (fs : list bool) (d : db),
+  forall (ss : list sess) (fs : faults) (d : db),
   snapshot d = VClean -> ss <> [] ->
   exists o fs' es, run_sessions ss fs [] d = (o, [], fs', [], es ++ [ERestore 4]) /\
                    o <> ORefused /\ o <> OSnapshotFail /\ o <> ORestoreFail.
@@ -142,7 +144,7 @@ Qed.
     the database is empty if that reached its DELETE, and with no restore
     fault it ran to its end (k = 4).  Same for any session list / command. *)
 Theorem C14_inspect_failure_restores :
-  forall (s : sess) (fs rs : list bool) (d : db) m d' fs' rs' es,
+  forall (s : sess) (fs : faults) (rs : list bool) (d : db) m d' fs' rs' es,
   run_session s fs rs d = (OInspectFail m, d', fs', rs', es) ->
   snapshot d = VClean /\
   exists es0 k, es = es0 ++ [ERestore k] /\ forallb ok_event es0 = true /\
@@ -183,7 +185,7 @@ Qed.
     (unnamed results: the error is dropped), where a following session refuses
     the dirty database. *)
 Theorem C14_restore_always_runs :
-  forall norm c excl dir from to changes (fs rs : list bool) (d : db),
+  forall norm c excl dir from to changes (fs : faults) (rs : list bool) (d : db),
   snapshot d = VClean -> sessions_of norm c excl dir from to <> [] ->
   exists o d' es k tail,
     run_cmd norm c excl dir from to changes fs rs d = (o, d', es ++ [ERestore k] ++ tail) /\
@@ -195,7 +197,7 @@ Proof. exact run_cmd_restore_last. Qed.
     / Planner.Checkpoint never writes it; those two write it once, after the
     last session was closed, only on success and only with a non-empty plan. *)
 Theorem C14_dir_readonly :
-  forall (ss : list sess) (fs rs : list bool) (d : db) o d' fs' rs' es,
+  forall (ss : list sess) (fs : faults) (rs : list bool) (d : db) o d' fs' rs' es,
   run_sessions ss fs rs d = (o, d', fs', rs', es) -> ~ In EDirWrite es.
 Proof. exact run_sessions_no_dirwrite. Qed.
 
@@ -259,14 +261,14 @@ Proof. vm_compute. repeat split. Qed.
 
 (* a user database -- also one the inspection cannot see -- is refused, untouched *)
 Example C14_refuse_nonvacuous :
-  run_cmd NoNorm (CLint 1) false ex_dir2 SrcNone SrcNone false [] [] ex_user_db = (ORefused, ex_user_db, []) /\
-  run_cmd NoNorm CValidate false ex_dir SrcNone SrcNone false [] [] [mkObj KTable ex_libsql ex_libsql 2 true]
+  run_cmd NoNorm (CLint 1) false ex_dir2 SrcNone SrcNone false ([], []) [] ex_user_db = (ORefused, ex_user_db, []) /\
+  run_cmd NoNorm CValidate false ex_dir SrcNone SrcNone false ([], []) [] [mkObj KTable ex_libsql ex_libsql 2 true]
     = (ORefused, [mkObj KTable ex_libsql ex_libsql 2 true], []) /\
   (* a table Snapshot's inspection cannot read: declined with the inspector's error, untouched *)
-  run_cmd NoNorm CValidate false ex_dir SrcNone SrcNone false [] [] [mkObj KTable ex_t0 ex_t0 1 false]
+  run_cmd NoNorm CValidate false ex_dir SrcNone SrcNone false ([], []) [] [mkObj KTable ex_t0 ex_t0 1 false]
     = (OSnapshotFail, [mkObj KTable ex_t0 ex_t0 1 false], []) /\
   (* ... unless the inspection never looks at it (hidden name): plain refusal *)
-  run_cmd NoNorm CValidate false ex_dir SrcNone SrcNone false [] [] [mkObj KTable ex_sqlitedb ex_sqlitedb 1 false]
+  run_cmd NoNorm CValidate false ex_dir SrcNone SrcNone false ([], []) [] [mkObj KTable ex_sqlitedb ex_sqlitedb 1 false]
     = (ORefused, [mkObj KTable ex_sqlitedb ex_sqlitedb 1 false], []).
 Proof. vm_compute. repeat split. Qed.
 
@@ -274,10 +276,10 @@ Proof. vm_compute. repeat split. Qed.
    a view, a trigger and a row in place; everything is gone afterwards; the
    same from a database holding the sqlite_sequence residue *)
 Example C14_handed_back_nonvacuous :
-  run_cmd NoNorm CValidate false ex_dir2 SrcNone SrcNone false [] [] [] =
+  run_cmd NoNorm CValidate false ex_dir2 SrcNone SrcNone false ([], []) [] [] =
     (OFail 6, [], [EWrite 1 true; EWrite 2 true; EWrite 3 true; EWrite 4 true; EWrite 5 true;
                    EWrite 6 false; ERestore 4]) /\
-  run_cmd NoNorm CValidate false ex_dir SrcNone SrcNone false [] [] [mkObj KTable ex_seq ex_seq 0 true] =
+  run_cmd NoNorm CValidate false ex_dir SrcNone SrcNone false ([], []) [] [mkObj KTable ex_seq ex_seq 0 true] =
     (OOk, [], [EWrite 1 true; EWrite 2 true; ERestore 4]).
 Proof. vm_compute. split; reflexivity. Qed.
 
@@ -285,18 +287,18 @@ Proof. vm_compute. split; reflexivity. Qed.
    VACUUM fails -> empty, error reported; through NormalizeSchema the error is
    dropped and the next session refuses the dirty database *)
 Example C14_restore_fault_nonvacuous :
-  run_cmd NoNorm CValidate false ex_dir SrcNone SrcNone false [] [false; true] [] =
+  run_cmd NoNorm CValidate false ex_dir SrcNone SrcNone false ([], []) [false; true] [] =
     (ORestoreFail, [mkObj KTable ex_t0 ex_t0 1 true], [EWrite 1 true; EWrite 2 true; ERestore 1]) /\
-  run_cmd NoNorm CValidate false ex_dir SrcNone SrcNone false [] [false; false; false; true] [] =
+  run_cmd NoNorm CValidate false ex_dir SrcNone SrcNone false ([], []) [false; false; false; true] [] =
     (ORestoreFail, [], [EWrite 1 true; EWrite 2 true; ERestore 3]) /\
   run_cmd NormSchema CSchemaDiff false [] (SrcHCL [mkHTable 1 ex_t0 [] false]) (SrcHCL [mkHTable 2 ex_t0 [] false])
-          false [] [true] [] =
+          false ([], []) [true] [] =
     (ORefused, [mkObj KTable ex_t0 ex_t0 0 true], [EWrite 1 true; ERestore 0]).
 Proof. vm_compute. repeat split. Qed.
 
 (* nothing succeeded (read-only connection): nothing changed *)
 Example C14_untouched_nonvacuous :
-  run_cmd NoNorm CValidate false ex_dir SrcNone SrcNone false [true] [true] [] =
+  run_cmd NoNorm CValidate false ex_dir SrcNone SrcNone false ([true], []) [true] [] =
     (OFail 1, [], [EWrite 1 false; ERestore 0]).
 Proof. vm_compute. reflexivity. Qed.
 
@@ -304,27 +306,27 @@ Proof. vm_compute. reflexivity. Qed.
    against an HCL schema on a normalising driver: replay, then normalise *)
 Example C14_dir_nonvacuous :
   run_cmd NoNorm CDiff false [mkMFile false [(1, SCreateTable ex_t0)]] SrcNone
-          (SrcSQL [(2, SCreateTable ex_t0); (3, SCreateView ex_v0)]) true [] [] [] =
+          (SrcSQL [(2, SCreateTable ex_t0); (3, SCreateView ex_v0)]) true ([], []) [] [] =
     (OOk, [], [EWrite 2 true; EWrite 3 true; ERestore 4; EWrite 1 true; ERestore 4; EDirWrite]) /\
   run_cmd NormRealm CDiff false [mkMFile false [(1, SCreateTable ex_t0)]] SrcNone
-          (SrcHCL [mkHTable 2 ex_t0 [(3, ex_i0)] false]) true [] [] [] =
+          (SrcHCL [mkHTable 2 ex_t0 [(3, ex_i0)] false]) true ([], []) [] [] =
     (OOk, [], [EWrite 1 true; ERestore 4; EWrite 2 true; EWrite 3 true; ERestore 4; EDirWrite]) /\
-  run_cmd NoNorm CCheckpoint false [mkMFile false [(1, SCreateTable ex_t0)]] SrcNone SrcNone true [] [] [] =
+  run_cmd NoNorm CCheckpoint false [mkMFile false [(1, SCreateTable ex_t0)]] SrcNone SrcNone true ([], []) [] [] =
     (OOk, [], [EWrite 1 true; ERestore 4; EDirWrite]) /\
-  run_cmd NoNorm CSchemaInspect false [] (SrcSQL [(1, SCreateTable ex_t0)]) SrcNone true [] [] [] =
+  run_cmd NoNorm CSchemaInspect false [] (SrcSQL [(1, SCreateTable ex_t0)]) SrcNone true ([], []) [] [] =
     (OOk, [], [EWrite 1 true; ERestore 4]).
 Proof. vm_compute. repeat split. Qed.
 
 (* lint restores in mid-session before a checkpoint file *)
 Example C14_lint_checkpoint_nonvacuous :
   run_cmd NoNorm (CLint 2) false [mkMFile false [(1, SCreateTable ex_t0)];
-                            mkMFile true [(2, SCreateTable ex_t0)]] SrcNone SrcNone false [true; false] [] [] =
+                            mkMFile true [(2, SCreateTable ex_t0)]] SrcNone SrcNone false ([true; false], []) [] [] =
     (OFail 1, [], [EWrite 1 false; ERestore 4]) /\
   run_cmd NoNorm (CLint 2) false [mkMFile false [(1, SCreateTable ex_t0)];
-                            mkMFile true [(2, SCreateTable ex_t0)]] SrcNone SrcNone false [] [] [] =
+                            mkMFile true [(2, SCreateTable ex_t0)]] SrcNone SrcNone false ([], []) [] [] =
     (OOk, [], [EWrite 1 true; ERestore 4; EWrite 2 true; ERestore 4]) /\
   run_cmd NoNorm (CLint 2) false [mkMFile false [(1, SCreateTable ex_t0)];
-                            mkMFile true [(2, SCreateTable ex_t0)]] SrcNone SrcNone false [] [true] [] =
+                            mkMFile true [(2, SCreateTable ex_t0)]] SrcNone SrcNone false ([], []) [true] [] =
     (ORestoreFail, [], [EWrite 1 true; ERestore 0; ERestore 4]).
 Proof. vm_compute. repeat split. Qed.
 
@@ -345,27 +347,27 @@ Definition ex_long : list (nat * stmt) :=
    (5, SCreateTable ex_t0); (6, SDropTable ex_t0); (7, SCreateTable ex_t0); (8, SDropTable ex_t0);
    (9, SCreateTable ex_t0); (10, SDropTable ex_t0); (11, SCreateTable ex_t0)].
 Example C14_inspect_failure_nonvacuous :
-  run_cmd NoNorm CValidate false ex_dirU SrcNone SrcNone false [] [] [] =
+  run_cmd NoNorm CValidate false ex_dirU SrcNone SrcNone false ([], []) [] [] =
     (OInspectFail 0, [], [EWrite 1 true; EWrite 2 true; ERestore 4]) /\
   run_cmd NoNorm CValidate false [mkMFile false [(1, SCreateTable ex_t0); (2, SCreateIndexU ex_i0 ex_t0); (3, SCreateView ex_v0)]]
-          SrcNone SrcNone false [] [] [mkObj KTable ex_seq ex_seq 0 true] =
+          SrcNone SrcNone false ([], []) [] [mkObj KTable ex_seq ex_seq 0 true] =
     (OInspectFail 0, [], [EWrite 1 true; EWrite 2 true; EWrite 3 true; ERestore 4]) /\
-  run_cmd NoNorm CValidate false ex_dirUD SrcNone SrcNone false [] [] [] =
+  run_cmd NoNorm CValidate false ex_dirUD SrcNone SrcNone false ([], []) [] [] =
     (OOk, [], [EWrite 1 true; EWrite 2 true; ERestore 4]) /\
-  run_cmd NoNorm (CLint 1) false ex_dirUD SrcNone SrcNone false [] [] [] =
+  run_cmd NoNorm (CLint 1) false ex_dirUD SrcNone SrcNone false ([], []) [] [] =
     (OInspectFail 1, [], [EWrite 1 true; ERestore 4]) /\
-  run_cmd NoNorm (CLint 1) false [mkMFile false ex_long] SrcNone SrcNone false [] [] [] =
+  run_cmd NoNorm (CLint 1) false [mkMFile false ex_long] SrcNone SrcNone false ([], []) [] [] =
     (OOk, [], [EWrite 1 true; EWrite 2 true; EWrite 3 true; EWrite 4 true; EWrite 5 true; EWrite 6 true;
                EWrite 7 true; EWrite 8 true; EWrite 9 true; EWrite 10 true; EWrite 11 true; ERestore 4]) /\
-  run_cmd NoNorm CSchemaInspect true [] (SrcSQL [(1, SCreateTable ex_t0)]) SrcNone false [] [] [] =
+  run_cmd NoNorm CSchemaInspect true [] (SrcSQL [(1, SCreateTable ex_t0)]) SrcNone false ([], []) [] [] =
     (OInspectFail 0, [], [EWrite 1 true; ERestore 4]) /\
-  run_cmd NoNorm CSchemaInspect true [] (SrcSQL [(1, SCreateView ex_v0)]) SrcNone false [] [] [] =
+  run_cmd NoNorm CSchemaInspect true [] (SrcSQL [(1, SCreateView ex_v0)]) SrcNone false ([], []) [] [] =
     (OOk, [], [EWrite 1 true; ERestore 4]) /\
-  run_cmd NormRealm CSchemaApply false [] SrcNone (SrcHCL [mkHTable 1 ex_t0 [(2, ex_i0)] true]) false [] [] [] =
+  run_cmd NormRealm CSchemaApply false [] SrcNone (SrcHCL [mkHTable 1 ex_t0 [(2, ex_i0)] true]) false ([], []) [] [] =
     (OInspectFail 0, [], [EWrite 1 true; EWrite 2 true; ERestore 4]) /\
-  run_cmd NormSchema CSchemaApply false [] SrcNone (SrcHCL [mkHTable 1 ex_t0 [] true]) false [] [] [] =
+  run_cmd NormSchema CSchemaApply false [] SrcNone (SrcHCL [mkHTable 1 ex_t0 [] true]) false ([], []) [] [] =
     (OInspectFail 0, [], [EWrite 1 true; ERestore 4]) /\
-  run_cmd NoNorm CDiff false ex_dir SrcNone (SrcSQL [(3, SCreateTableU ex_t0)]) true [] [] [] =
+  run_cmd NoNorm CDiff false ex_dir SrcNone (SrcSQL [(3, SCreateTableU ex_t0)]) true ([], []) [] [] =
     (OInspectFail 0, [], [EWrite 3 true; ERestore 4]).
 Proof. vm_compute. repeat split. Qed.
 
@@ -373,11 +375,26 @@ Proof. vm_compute. repeat split. Qed.
    next command's Snapshot fails on it); only VACUUM fails -> empty; the inspector's error is what
    is reported in both cases *)
 Example C14_inspect_failure_restore_fault_nonvacuous :
-  run_cmd NoNorm CValidate false ex_dirU SrcNone SrcNone false [] [false; true] [] =
+  run_cmd NoNorm CValidate false ex_dirU SrcNone SrcNone false ([], []) [false; true] [] =
     (OInspectFail 0, [mkObj KTable ex_t0 ex_t0 1 false], [EWrite 1 true; EWrite 2 true; ERestore 1]) /\
-  run_cmd NoNorm CValidate false ex_dirU SrcNone SrcNone false [] [false; false; false; true] [] =
+  run_cmd NoNorm CValidate false ex_dirU SrcNone SrcNone false ([], []) [false; false; false; true] [] =
     (OInspectFail 0, [], [EWrite 1 true; EWrite 2 true; ERestore 3]) /\
   run_cmd NormSchema CSchemaDiff false [] (SrcHCL [mkHTable 1 ex_t0 [] true]) (SrcHCL [mkHTable 2 ex_t0 [] false])
-          false [] [true] [] =
+          false ([], []) [true] [] =
     (OInspectFail 0, [mkObj KTable ex_t0 ex_t0 0 false], [EWrite 1 true; ERestore 0]).
+Proof. vm_compute. repeat split. Qed.
+
+(* a read hit by a fault (lost connection between the last statement and the inspection): nothing
+   unparsable anywhere, every statement succeeded, the second read of the command fails *)
+Example C14_read_fault_nonvacuous :
+  run_cmd NoNorm CValidate false ex_dir SrcNone SrcNone false ([], [false; true]) [] [] =
+    (OInspectFail 0, [], [EWrite 1 true; EWrite 2 true; ERestore 4]) /\
+  (* Pending's CheckClean -- a read inside the session, before the first statement *)
+  run_cmd NoNorm CValidate false ex_dir SrcNone SrcNone false ([], [true]) [] [] =
+    (OInspectFail 0, [], [ERestore 4]) /\
+  run_cmd NoNorm CDiff false [mkMFile false [(1, SCreateTable ex_t0)]] SrcNone
+          (SrcSQL [(2, SCreateTable ex_t0); (3, SCreateView ex_v0)]) true ([], [false; false; false; true]) [] [] =
+    (OInspectFail 0, [], [EWrite 2 true; EWrite 3 true; ERestore 4; EWrite 1 true; ERestore 4]) /\
+  run_cmd NormRealm CSchemaApply false [] SrcNone (SrcHCL [mkHTable 1 ex_t0 [(2, ex_i0)] false]) false ([], [true]) [true] [] =
+    (OInspectFail 0, [mkObj KTable ex_t0 ex_t0 0 true; mkObj KIndex ex_i0 ex_t0 0 true], [EWrite 1 true; EWrite 2 true; ERestore 0]).
 Proof. vm_compute. repeat split. Qed.
